@@ -233,3 +233,15 @@ pub proof fn lemma_map_empty()
     ensures fsv(Seq::<WordField>::empty()) =~= Seq::<Seq<Piece>>::empty(),
         Seq::<ExpansionPiece>::empty().map_values(|p: ExpansionPiece| pv(p)) =~= Seq::<Piece>::empty() {}
 
+
+// WordField::len (not called by split_fields today; a stub read off its body — `fold(0, |acc, piece| acc + piece.len())` — so that a
+// change that starts to use it is verified against the fold instead of stopping the run): the number of bytes of all pieces together.
+pub uninterp spec fn text_bytes(s: Seq<char>) -> nat;
+pub open spec fn piece_text(p: Piece) -> Seq<char> { match p { Piece::U(s) => s, Piece::S(s) => s } }
+pub open spec fn field_bytes(f: Seq<Piece>) -> nat decreases f.len() { if f.len() == 0 { 0 } else { field_bytes(f.drop_last()) + text_bytes(piece_text(f.last())) } }
+pub broadcast axiom fn axiom_text_bytes(s: Seq<char>)
+    ensures (#[trigger] text_bytes(s) == 0) == (s.len() == 0);
+impl WordField {
+    #[verifier::external_body]
+    pub fn len(&self) -> (r: usize) ensures r as nat == field_bytes(fv(*self)) { unimplemented!() }
+}
